@@ -14,7 +14,7 @@ from vf import drive, harness as H
 PID = 'C12'
 LEVEL = 'exploration'
 RULE = ("Data: short sequences straight from Hypothesis (any finite float |x| <= 1e150, ints), and long ones (up to 2000 items quick, "
-        "10^4 thorough) expanded from drawn parameters (offset 10^-6..10^9, scale 10^-6..10^6, shape uniform / two-point / sorted / "
+        "10^4 thorough) expanded from drawn parameters (offset 10^-6..10^9, scale 10^-13..10^6, 62-bit ints, shape uniform / two-point / sorted / "
         "constant / alternating sign, SHA-256 counter as PRNG). sum, mean, min, max, variance, stddev, formal.variance, formal.stddev "
         "are run streaming and reduce, with and without key_mapper, on plain observables, under with_memory_store and per key under "
         "group_by. Oracle: exact rational arithmetic on the very same doubles; with u = 2^-53, after i items (plus (i+2) 2^-1074 for gradual underflow): sum |err| <= 2 i u sum|x|; "
@@ -240,6 +240,8 @@ FLOATS = st.one_of(
     st.floats(min_value=-1e6, max_value=1e6, allow_nan=False, allow_infinity=False),
     st.integers(-10 ** 6, 10 ** 6).map(float),
     st.integers(-1000, 1000),
+    st.integers(2 ** 60, 2 ** 62),                      # e.g. epoch nanoseconds: sums leave the 64-bit range
+    st.integers(1, 9).map(lambda k: 1.0 + k * 1e-10),   # spreads far below sqrt(eps)
 )
 
 
@@ -250,7 +252,7 @@ def case_gen(draw, long_max):
         data = {'kind': 'short', 'xs': draw(st.lists(FLOATS, min_size=draw(st.sampled_from([0, 1, 2, 3])), max_size=12))}
     else:
         data = {'kind': 'long', 'n': draw(st.sampled_from([10, 100, 300, long_max // 2, long_max])), 'off_m': draw(st.sampled_from([0.0, 1.0, -3.0, 7.25])),
-                'off_e': draw(st.integers(-6, 9)), 'scale_e': draw(st.integers(-6, 6)),
+                'off_e': draw(st.integers(-6, 9)), 'scale_e': draw(st.integers(-13, 6)),
                 'shape': draw(st.sampled_from(['uniform', 'two-point', 'sorted', 'constant', 'alternating'])), 'seed': draw(st.integers(0, 10 ** 6))}
     mode = draw(st.sampled_from(['plain', 'store', 'grouped']))
     case = {'data': data, 'op': draw(st.sampled_from(OPS)), 'km': draw(st.booleans()), 'mode': mode}
